@@ -135,6 +135,10 @@ class WrapperModel(Model):
             b = ('bk', 'L%d' % self.nbk, 'list')
             st.facts.setdefault('lists', {})[b] = v
             return b
+        # an empty dict literal created in __call__: an insertion-ordered set of keys used as recency bookkeeping
+        if st.facts.get('in_call') and v[0] == 'dict' and not v[1]:
+            self.nbk += 1
+            return ('bk', 'D%d' % self.nbk, 'odict')
         return None
 
     def is_counter_class(self, f):
@@ -194,6 +198,9 @@ class WrapperModel(Model):
         if self.is_counter_class(f):
             self.nbk += 1
             return [R(st, ('bk', 'N%d' % self.nbk, 'counter'))]
+        if f[0] == 'lib' and (f[1] in ('collections.OrderedDict', 'OrderedDict') or (f[1] == 'dict' and st.facts.get('in_call'))) and not args and not kws:
+            self.nbk += 1
+            return [R(st, ('bk', 'D%d' % self.nbk, 'odict'))]
         if f == ('lib', 'object') and not args:
             return [R(st, ('opaque', 'object%d' % self.newid()))]
         # --- len
@@ -225,6 +232,14 @@ class WrapperModel(Model):
         if f[0] == 'lib' and f[1].startswith(self.module.rel + '.') and ln in self.module.functions and ln not in ('update_wrapper',):
             fi = self.module.functions[ln]
             return self.engine.inline(fi.node, ln, {}, args, kws, st, node)
+        # --- ordered de-duplication of the recency queue: dict.fromkeys(queue) keeps the FIRST occurrence of every key in iteration order
+        if f == ('lib', 'dict.fromkeys') and args and len(args) <= 2:
+            src = args[0]
+            side = 'left'
+            if src[0] == 'call' and libname(src[1]) == 'reversed' and len(src[2]) == 1:
+                src, side = src[2][0], 'right'
+            if is_bk(src, 'deque'):
+                return [R(st, ('dedupe', src, side, args[1] if len(args) > 1 else NONE))]
         # --- role object escaping into an unknown callee
         roleargs = [a for a in list(args) + [k[-1] for k in kws]
                     if contains_term(a, lambda t: t == CACHE or is_bk(t) or t == ARCHIVE)]
@@ -240,6 +255,13 @@ class WrapperModel(Model):
                 return None
             # direct role containers handed to an unknown function: cannot be judged
             direct = [a for a in list(args) + [k[-1] for k in kws] if a == CACHE or is_bk(a) or a == ARCHIVE]
+            if direct and f[0] == 'attr' and f[2] in ('update', 'extend', 'union', 'difference', 'intersection', 'difference_update', 'intersection_update',
+                                                       'issubset', 'issuperset', 'isdisjoint', 'symmetric_difference') \
+                    and all(a == CACHE for a in direct) and not contains_term(f[1], lambda t: t == CACHE or is_bk(t) or t == ARCHIVE):
+                # an auxiliary local container (a set of keys, say) reads the cache's keys: an observer, like list(cache)
+                v = ('ev', 'keys', self.newid())
+                st.emit('KEYS', (), line, val=v)
+                return [R(st, ('call', f, args, kws))]
             if direct:
                 st.emit('ESCAPE', (f,) + tuple(direct), line)
                 if self.strict:
@@ -439,6 +461,65 @@ class WrapperModel(Model):
         if kind == 'list':
             st.emit('BK', (bk, C(m)) + tuple(args), line)
             return [R(st, ('ev', 'listop', self.newid()))]
+        if kind == 'odict':
+            # an insertion-ordered dict used as an ordered set of keys; events use the deque vocabulary (recent end = right):
+            #   d[k] = v       append(k) if k is absent, NO move if present      d.pop(k) / del d[k]   remove(k)
+            #   d.popitem()    pop (recent end)     popitem(last=False)  popleft   move_to_end(k)        remove(k) + append(k)
+            def kwv(name, default):
+                for k in kws:
+                    if k[0] == 'kw' and k[1] == name:
+                        return k[2]
+                return default
+            if m in ('keys', 'items', 'values', 'get', '__contains__', '__len__', '__iter__', 'copy', '__getitem__', '__reversed__'):
+                return [R(st, ('ev', 'bkpeek', self.newid()))]
+            if m == 'clear':
+                st.emit('BK', (bk, C('clear')), line)
+                st.facts.setdefault('nonempty', set()).discard(bk)
+                st.facts.setdefault('popped', set()).discard(bk)
+                return [R(st, NONE)]
+            if m == 'popitem':
+                last = kwv('last', args[0] if args else C(True))
+                op = 'pop' if last == C(True) else ('popleft' if last == C(False) else None)
+                if op is None:
+                    raise AnalysisError('unmodelled popitem(last=%s) at %s:%d' % (render(last), self.module.rel, line))
+                ne = bk in st.facts.get('nonempty', set())
+                if not ne:
+                    s2 = st.fork()
+                    s2.emit('BKEMPTY', (bk, C(op)), line)
+                    outs.append(R(s2, None, 'KeyError', line))
+                v = ('ev', 'bkpop', self.newid())
+                st.emit('BK', (bk, C(op)), line, val=v)
+                st.facts.setdefault('nonempty', set()).discard(bk)
+                st.facts.setdefault('popped', set()).add(bk)
+                outs.append(R(st, ('tuple', (v, ('opaque', 'odict-value')))))
+                return outs
+            if m == 'pop' and args:
+                tolerant = len(args) >= 2
+                s2 = st.fork()
+                s2.emit('BKMISS', (bk, C('remove')) + tuple(args[:1]), line)
+                outs.append(R(s2, args[1], None, line) if tolerant else R(s2, None, 'KeyError', line))
+                st.emit('BK', (bk, C('remove')) + tuple(args[:1]), line)
+                st.facts.setdefault('nonempty', set()).discard(bk)
+                outs.append(R(st, ('ev', 'bkpopkey', self.newid())))
+                return outs
+            if m == 'move_to_end' and args:
+                last = kwv('last', args[1] if len(args) > 1 else C(True))
+                end = 'append' if last == C(True) else ('appendleft' if last == C(False) else None)
+                if end is None:
+                    raise AnalysisError('unmodelled move_to_end(last=%s) at %s:%d' % (render(last), self.module.rel, line))
+                s2 = st.fork()
+                s2.emit('BKMISS', (bk, C('remove')) + tuple(args[:1]), line)
+                outs.append(R(s2, None, 'KeyError', line))
+                st.emit('BK', (bk, C('remove')) + tuple(args[:1]), line)
+                st.emit('BK', (bk, C(end)) + tuple(args[:1]), line)
+                st.facts.setdefault('nonempty', set()).add(bk)
+                outs.append(R(st, NONE))
+                return outs
+            if m == 'setdefault' and args:
+                st.emit('BK', (bk, C('append')) + tuple(args[:1]), line, extra={'ifabsent': True})
+                st.facts.setdefault('nonempty', set()).add(bk)
+                return [R(st, ('ev', 'bkpeek', self.newid()))]
+            raise AnalysisError('unmodelled method %s on the ordered-dict bookkeeping at %s:%d' % (m, self.module.rel, line))
         return None
 
     # -- attributes -------------------------------------------------------------------------
@@ -533,6 +614,11 @@ class WrapperModel(Model):
             st.emit('BK', (obj, C('set'), idx, val), line)
             st.facts.setdefault('nonempty', set()).add(obj)
             return [R(st, NONE)]
+        if is_bk(obj, 'odict'):
+            # assigning an existing key of a dict does not change its position
+            st.emit('BK', (obj, C('append'), idx), line, extra={'ifabsent': True})
+            st.facts.setdefault('nonempty', set()).add(obj)
+            return [R(st, NONE)]
         if obj == ('attr', SELF, '__state__'):
             st.emit('SELFSET', (idx, val), line)
             return [R(st, NONE)]
@@ -568,6 +654,12 @@ class WrapperModel(Model):
             s2 = st.fork()
             s2.emit('BKMISS', (obj, C('del'), idx), line)
             st.emit('BK', (obj, C('del'), idx), line)
+            st.facts.setdefault('nonempty', set()).discard(obj)
+            return [R(st, NONE), R(s2, None, 'KeyError', line)]
+        if is_bk(obj, 'odict'):
+            s2 = st.fork()
+            s2.emit('BKMISS', (obj, C('remove'), idx), line)
+            st.emit('BK', (obj, C('remove'), idx), line)
             st.facts.setdefault('nonempty', set()).discard(obj)
             return [R(st, NONE), R(s2, None, 'KeyError', line)]
         return None
@@ -635,7 +727,7 @@ class WrapperModel(Model):
             a.emit('ASSUME', (C(key), C(True)), line)
             b.emit('ASSUME', (C(key), C(False)), line)
             return [(a, True), (b, False)]
-        if is_bk(val, 'deque') or is_bk(val, 'counter'):
+        if is_bk(val, 'deque') or is_bk(val, 'counter') or is_bk(val, 'odict'):
             ne = val in st.facts.get('nonempty', set())
             if ne:
                 return [(st, True)]
@@ -711,7 +803,9 @@ class WrapperModel(Model):
                 hook['on_iter'] = on_iter
                 hook['on_exit'] = on_exit
                 return hook
-        # victims drawn from a non-empty counter view with n >= 1
+        # victims drawn from a non-empty counter view with n >= 1 (a filtered comprehension of a non-empty view may be empty)
+        if contains_term(itval, lambda t: t[0] == 'comp' and len(t) > 3):
+            return None
         if itval[0] == 'call' and libname(itval[1]) in ('nsmallest', 'nlargest') and len(itval[2]) >= 2:
             n = lower_bound(itval[2][0])
             src = itval[2][1]
